@@ -257,9 +257,42 @@ def _order(tier="quick", seed=0):
     return out
 
 
+def _replay_startup_order():
+    """replay END TO END on the tb demo: every population starts with people in `sus` and in the treatment-outcome junction `spxtoj`, whose outflow
+    proportions are set by programs active from the first step; after the start-up sequence the junction is empty, everybody is somewhere (finite
+    sizes, total preserved) and the run that follows conserves people step by step up to births and deaths recorded on links from sources / to sinks"""
+    import numpy as np
+
+    _quiet()
+    import atomica as at
+    from atomica.parameters import Initialization
+    from atomica.model import SourceCompartment
+
+    P = at.demo("tb", do_run=False)
+    P.settings.update_time_vector(end=P.settings.sim_start + 2)
+    ps = P.parsets[0].copy()
+    values = {}
+    for pop in ps.pop_names:
+        values[("sus", pop)] = 100000.0
+        values[("spxtoj", pop)] = 1000.0
+    ps.initialization = Initialization(values=values, year=P.settings.sim_start)
+    ins = at.ProgramInstructions(start_year=P.settings.sim_start, alloc=P.progsets[0], coverage={"HospXDR": 0.5, "XDRnew": 0.25})
+    res = P.run_sim(parset=ps, progset=P.progsets[0], progset_instructions=ins, store_results=False)
+    bad = []
+    for pop in res.model.pops:
+        j = pop.get_comp("spxtoj")
+        total = sum(float(c.vals[0]) for c in pop.comps if not isinstance(c, SourceCompartment))
+        if not j.vals[0] == 0:
+            bad.append("%s: the junction holds %r after the start-up flush" % (pop.name, float(j.vals[0])))
+        if not np.isfinite(total) or abs(total - 101000.0) > 1e-6:
+            bad.append("%s: 101000 people were placed, %r are present after the start-up flush" % (pop.name, total))
+    pre = dict(demo="tb", placed={"sus": 100000.0, "spxtoj": 1000.0}, programs="demo program set from the first step, coverage of HospXDR 0.5 and XDRnew 0.25")
+    return dict(verdict="violates" if bad else "holds", detail="; ".join(bad[:3]) or "the junction is empty and all 101000 people of every population are present after the start-up flush", prestate=pre)
+
+
 def _with_order(prev):
     def f(tier="quick", seed=0):
-        return (prev(tier, seed) if prev else []) + _order(tier, seed)
+        return _attach((prev(tier, seed) if prev else []) + _order(tier, seed), "call-order", _replay_startup_order)
 
     return f
 
@@ -788,7 +821,7 @@ EXTRA_CHECKS["C16"] = (lambda tier="quick", seed=0: _c16_before_guards(tier, see
 # ---- C08 "repeating a run in a fresh process gives bit-identical outputs": nothing in the simulation modules builds ordered structure (lists of
 # members, links, accumulated sums) by iterating over a set, whose order depends on the hash seed of the process
 def _replay_hash_seed():
-    """replay END TO END: the tb demo is run in two fresh interpreter processes with PYTHONHASHSEED 1 and 2 and a digest of every output array is compared"""
+    """replay END TO END: the tb demo is run (without and with its programs) in three fresh interpreter processes with PYTHONHASHSEED 1, 2 and 3 and a digest of every output array is compared"""
     import hashlib
     import os
     import subprocess
@@ -797,17 +830,18 @@ def _replay_hash_seed():
     at, _ = _udt()
     root = os.path.dirname(os.path.dirname(at.__file__))
     code = ("import warnings, logging, hashlib, numpy as np\nwarnings.filterwarnings('ignore')\nimport atomica as at\nat.logger.setLevel(logging.ERROR)\n"
-            "P = at.demo('tb', do_run=False)\nres = P.run_sim(P.parsets[0], store_results=False)\nh = hashlib.sha256()\n"
-            "for pop in res.model.pops:\n    for v in pop.comps + pop.characs + pop.pars + pop.links:\n        if v.vals is not None:\n            h.update(np.ascontiguousarray(np.asarray(v.vals, dtype=float)).tobytes())\nprint('DIGEST', h.hexdigest())\n")
+            "P = at.demo('tb', do_run=False)\nh = hashlib.sha256()\n"
+            "for kw in (dict(), dict(progset=P.progsets[0], progset_instructions=at.ProgramInstructions(start_year=2018))):\n    res = P.run_sim(P.parsets[0], store_results=False, **kw)\n"
+            "    for pop in res.model.pops:\n        for v in pop.comps + pop.characs + pop.pars + pop.links:\n            if v.vals is not None:\n                h.update(np.ascontiguousarray(np.asarray(v.vals, dtype=float)).tobytes())\nprint('DIGEST', h.hexdigest())\n")
     digests = {}
-    for seed in ("1", "2"):
+    for seed in ("1", "2", "3"):
         env = dict(os.environ, PYTHONHASHSEED=seed, PYTHONPATH=root + os.pathsep + os.environ.get("PYTHONPATH", ""))
         r = subprocess.run([sys.executable, "-c", code], capture_output=True, text=True, env=env, timeout=600)
         line = [l for l in r.stdout.split("\n") if l.startswith("DIGEST")]
         digests[seed] = line[0].split()[1] if line else "run failed: " + r.stderr[-200:]
     same = len(set(digests.values())) == 1
-    return dict(verdict="holds" if same else "violates", detail="outputs of the tb demo are bit-identical for hash seeds 1 and 2" if same else "the tb demo gives different output bytes in processes with PYTHONHASHSEED=1 and 2: %r" % digests,
-                prestate=dict(project="tb", hash_seeds=[1, 2]))
+    return dict(verdict="holds" if same else "violates", detail="outputs of the tb demo (without and with programs) are bit-identical for hash seeds 1, 2 and 3" if same else "the tb demo gives different output bytes in processes with PYTHONHASHSEED=1, 2 and 3: %r" % digests,
+                prestate=dict(project="tb", programs="the demo program set from 2018", hash_seeds=[1, 2, 3]))
 
 
 def _c08_set_order(tier="quick", seed=0):
@@ -851,3 +885,53 @@ def _c16_stale(tier="quick", seed=0):
 
 _c16_before_stale = EXTRA_CHECKS["C16"]
 EXTRA_CHECKS["C16"] = (lambda tier="quick", seed=0: _c16_before_stale(tier, seed) + _c16_stale(tier, seed))
+
+
+# ---- temporal locality of the integration step (DESIGN 3.3), the obligation C09 and C10 rest on: every function of the model module that works on a
+# current step is scanned on each run for accesses to time-indexed storage at an index that does not depend on the step
+def _replay_restart():
+    """replay END TO END on the tb demo (junction proportions that change over time): run 2000-2012, save the state at 2005 into the parameter set,
+    restart at 2005 and compare every compartment, link, characteristic and parameter from 2005 onward"""
+    import numpy as np
+    import sciris as sc
+
+    _quiet()
+    import atomica as at
+
+    P = at.demo("tb", do_run=False)
+    P.settings.update_time_vector(end=2012.0)
+    full = P.run_sim(P.parsets[0], result_name="full")
+    Y = 2005.0
+    ps = sc.dcp(P.parsets[0])
+    ps.set_initialization(full, Y)
+    P2 = sc.dcp(P)
+    P2.settings.update_time_vector(start=Y)
+    again = P2.run_sim(ps, result_name="restart")
+    i0 = int(np.nonzero(full.model.t == Y)[0][0])
+    worst, n = None, 0
+    for p1, p2 in zip(full.model.pops, again.model.pops):
+        for kind in ("comps", "links", "characs", "pars"):
+            for o1, o2 in zip(getattr(p1, kind), getattr(p2, kind)):
+                a, b = np.asarray(o1.vals, dtype=float)[i0:], np.asarray(o2.vals, dtype=float)
+                n += 1
+                if a.shape != b.shape or not np.allclose(a, b, rtol=1e-9, atol=1e-9, equal_nan=True):
+                    k = int(np.nanargmax(np.abs(a - b))) if a.shape == b.shape else 0
+                    worst = worst or "%s %s/%s at %g: original %r, restarted %r" % (kind[:-1], p1.name, o1.name, again.model.t[k], float(a[k]), float(b[k]))
+    pre = dict(demo="tb", run="2000-2012", restart_year=Y, quantities_compared=n)
+    return dict(verdict="violates" if worst else "holds", detail=worst or "the restarted run reproduces all %d quantities from %g onward" % (n, Y), prestate=pre)
+
+
+def _locality(tier="quick", seed=0):
+    from pyvc import source
+
+    m = source.load("model")
+    out = []
+    for (cls, name) in sorted(m.methods):
+        out += flow.time_indexed_access_is_local("model:%s.%s" % (cls, name))
+    if not out:
+        out.append(flow._ob("model", "time-indexed-access-is-at-the-current-step", False, note="no function of the model module works on a current step: the scan found nothing to check"))
+    return _attach(out, "time-indexed-access", _replay_restart)
+
+
+for _pid in ("C09", "C10"):
+    EXTRA_CHECKS[_pid] = (lambda prev: (lambda tier="quick", seed=0: (prev(tier, seed) if prev else []) + _locality(tier, seed)))(EXTRA_CHECKS.get(_pid))
